@@ -329,7 +329,59 @@ def exec_stub(case, part):
                            expected=lls, observed=(out.tolist(), ev, maps))
 
 
+def exec_stub_sampler(case, part):
+    """call histories of the samplers (stub kernel, real seeded generator) under equal batching on different pools: the
+    accepted rows AND the linear draws of every call must be those of the serial pool"""
+    import astropy.units as u
+
+    N = case["N"]
+    lls = {i: -0.35 * ((3 * i) % 5) for i in range(N)}  # acceptance ratios between 0.25 and 1: the uniforms matter
+
+    def run(pool_spec):
+        pool = drv.make_pool(list(pool_spec))
+        joker = seams.make_stub_joker(lls, np.random.default_rng(case["seed"]), pool=pool, tempfile_path=seams.fresh_dir("c05p"))
+        lib = seams.stub_library(N) if case["path"] == "obj" else drv.lib_file(N, False)
+        out = []
+        for call in case["calls"]:
+            if call[0] == "rej":
+                res = joker.rejection_sample(None, lib, n_batches=call[1], n_linear_samples=call[2])
+            else:
+                res = joker.iterative_rejection_sample(None, lib, n_requested_samples=call[1], init_batch_size=call[2], growth_factor=2, n_batches=call[3])
+            out.append((np.atleast_1d(res["P"].to_value(u.day)).tolist(), np.atleast_1d(res["K"].to_value(u.km / u.s)).tolist()))
+        return out
+
+    try:
+        ref = run(("serial",))
+    except Exception as e:
+        part.violation(case, f"serial run raised {type(e).__name__}: {str(e)[:200]}")
+        return
+    for spec in case["pools"]:
+        c2 = dict(case, pool=list(spec))
+        part.states += 1
+        part.transitions += len(case["calls"])
+        try:
+            got = run(tuple(spec))
+        except Exception as e:
+            part.violation(c2, f"raised {type(e).__name__}: {str(e)[:200]}")
+            return
+        part.record(c2, outcome=(tuple(map(str, got)),), nontrivial=len(case["calls"]) > 1 or any(len(g[0]) > 1 for g in got))
+        explicit = True  # batching identical on both pools so far (n_batches=None means "one batch per worker")
+        for k, (a, b) in enumerate(zip(ref, got)):
+            nb = case["calls"][k][1] if case["calls"][k][0] == "rej" else case["calls"][k][3]
+            explicit = explicit and nb is not None
+            if a[0] != b[0]:
+                part.violation(dict(c2, call=k), f"call {k} ({case['calls'][k]}) with an equal seed returns other prior samples on this pool than on the serial pool",
+                               expected=a[0], observed=b[0])
+                return
+            if explicit and a[1] != b[1]:
+                part.violation(dict(c2, call=k), f"call {k} ({case['calls'][k]}) with equal seed and equal batching gives other linear draws on this pool than on the "
+                               "serial pool", expected=a[1], observed=b[1])
+                return
+
+
 def run_case(case, part):
+    if case["kind"] == "stub_sampler":
+        return exec_stub_sampler(case, part)
     if case["kind"] == "history":
         hist = [tuple(tuple(x) if isinstance(x, list) else x for x in o) for o in case["history"]]
         base = _baseline(case["config"])
@@ -405,6 +457,14 @@ def build(quick):
                     if N_ >= 5 and (path == "obj" or nb not in (None, N_, N_ + 2)):
                         continue
                     stub.append(dict(kind="stub", N=N_, n_batches=nb, size=size, path=path))
+    # sampler call histories across pools (stub kernel): pool sizes that do not divide the batch sizes, two calls in a row
+    pools = [["model", 2, 1, False], ["model", 3, 1, True], ["model", 3, 2, False]] + ([] if quick else [["model", 5, 1, True], ["model", 2, 3, True]])
+    for N_ in (7, 10):
+        for path in ("obj", "file"):
+            for calls in ([["rej", None, 1]], [["rej", 3, 2]], [["rej", None, 2], ["rej", None, 1]], [["rej", 2, 1], ["rej", None, 1]],
+                          [["iter", 3, 2, None]], [["iter", 2, 4, 2]], [["iter", 3, 2, None], ["rej", None, 1]], [["rej", None, 1], ["iter", 4, 5, None]]):
+                for seed in (3, 11):
+                    stub.append(dict(kind="stub_sampler", N=N_, path=path, calls=calls, seed=seed, pools=pools))
     return hists, real, stub
 
 
